@@ -466,6 +466,8 @@ ROUND5 = {
     'C05': ' A peer connection holds a mailbox selected read-write while '
            'the connection runs APPEND/COPY/STATUS/NOOP/CHECK/LIST/IDLE: '
            'mailbox and mode of its own selection must not change.',
+    'C06': ' A slice runs commands on a maildir folder that another '
+           'process is half way through deleting.',
     'C08': ' Names that case-map or normalise to INBOX (U+0131, fullwidth, '
            'combining dot).',
     'C09': ' One run in eight uses the Cleartext password scheme.',
@@ -475,7 +477,8 @@ ROUND5 = {
            'or expunged by an earlier selection as the last event.',
     'C18': ' SEARCH RETURN options in varied case.',
     'C20': ' FileLock with 1-6 retry delays, the holder leaving just before '
-           'each re-test (the last included).',
+           'each re-test (the last included); maildir/io.py with_write over '
+           'control files whose read fails.',
 }
 
 NOT_YET = 'check not built yet in this round (see DESIGN.md section 4)'
